@@ -13,7 +13,7 @@ for d in sorted(glob.glob(os.path.join(ROOT,'seeded','C*'))):
     rows.append('| %s | %s | %s | %s | %s |'%(k,cl(m.get('summary'),230),cl(m.get('needs_to_manifest'),200),s,cl(vr.get('note'),260)))
 hdr='| seed | change | needs to manifest | verdict | note |\n|---|---|---|---|---|\n'
 total=sum(cnt.values())
-summ='%d seeded changes (two independent rounds; round 2 = `-r2`, written to differ in kind and site from round 1): '%total+', '.join('%d %s'%(v,k) for k,v in sorted(cnt.items()))+'.'
+summ='%d seeded changes (three independent rounds; rounds 2 and 3 = `-r2`, `-r3`, each written to differ in kind and site from the earlier ones): '%total+', '.join('%d %s'%(v,k) for k,v in sorted(cnt.items()))+'.'
 open(os.path.join(ROOT,'seeded','INDEX.md'),'w').write('# Seeded breaking changes\n\n'+summ+'\n\nEach directory holds patch.diff, the author\'s demonstration (fails with the change, passes without), demo.sh and meta.json (incl. verif_result).\n\n'+hdr+'\n'.join(rows)+'\n')
 p=os.path.join(ROOT,'DESIGN.md'); s=open(p).read()
 sec='''## 11. Seeded-change campaign (which checks catch which changes)
@@ -25,9 +25,11 @@ manifest (a particular interleaving, crash point, multi-step history, boundary i
 cooperating sites), together with a demonstration that fails with the change and passes without it.
 I confirmed each one in its worktree (`tools/verify_seed.sh`: the patch equals the worktree diff,
 the demonstration fails with and passes without the change, the touched packages build) and then ran
-the property's quick check against the changed tree (`VERIF_REPO=<worktree> ./check <id>`). Two
-rounds were run for every claimed property; round-2 authors were told what round 1 had changed and
-had to pick a different mechanism. Where a check missed a change, the generator or the oracle was
+the property's quick check against the changed tree (`VERIF_REPO=<worktree> ./check <id>`). Three
+rounds were run for every claimed property; the authors of rounds 2 and 3 were told what the earlier
+rounds had changed and had to pick a different mechanism (three round-3 authors nevertheless arrived
+independently at the same change for C28, C32 and C33: a positional fast path in
+`VerifyMultiSignature` that ignores the already-matched mask). Where a check missed a change, the generator or the oracle was
 strengthened (never loosened, never special-cased to the seed) until the change was killed in the
 quick tier at seeds 1, 2 and 3 while the unchanged tree stayed green; those are marked "caught after
 strengthening" with what was added.
@@ -45,6 +47,21 @@ header-first delivery, duplicated signer entries, re-blacklisting life cycles) a
 the implementation's own records instead of an independent model (the governance "unfrozen" bound).
 Two misses needed techniques beyond plain generation: an injected save failure (C38) and a
 harness-owned interleaving through the crash-point hook (C42).
+
+Round 3 was the hardest (its authors had to avoid two earlier mechanisms per property): 26 of 44
+were caught at once. Its misses were again generator gaps, of three kinds. (1) *Object life time and
+reuse*: iterators held across other reads (C04), merkle paths kept across later calls (C27), codec
+sinks reused after Reset/BackUp or over dirty buffers (C18). (2) *Encodings the harness never wrote*:
+non-minimal length prefixes on header signatures and consensus-payload signatures (C20, C24), a
+generic ECDSA key on the secp256k1 curve (C17; added to the shared key zoo, so every key-generic
+check now draws it), balances above 2^64 whole tokens (C21), a signature repeated in an earlier slot
+and in its signer's own slot (C28/C32/C33). (3) *Histories with a governance or timing step*:
+gas-price changes through the param contract before fee-paying deploys (C02), out-of-gas into a
+partial fee unit (C05), verification results arriving after the block that contains the transaction
+(C35), amplification loops over container-only trees (C12 — writing that family also exposed the
+genuine finding `clone-count-checked-only-on-struct-entry`). One round-3 change (C30) made the code
+under test build position tables of billions of entries: the first run was INCONCLUSIVE (time-out
+while shrinking), never a violation; a narrow-stake variant of the permutation oracle now reports it.
 '''
 if '## 11. Seeded-change campaign' in s:
     s=s[:s.index('## 11. Seeded-change campaign')]+sec
